@@ -160,6 +160,20 @@ def run(tier, seed, replay):
                     out.broke("harness: stub batch", lines[:5])
         finally:
             b.close()
+    # regenerating over the tool's own earlier output, in the same and in the other mode: accepted, and the same bytes as into a fresh path
+    if not replay:
+        rsp, rref = [], []
+        for g in [g for g in range(0, len(specs) - 1, 2) if obs[g].get("exit") == 0 and obs[g + 1].get("exit") == 0][: (6 if tier == "quick" else 60)]:
+            for target, old in ((g, g), (g + 1, g + 1), (g + 1, g), (g, g + 1)):
+                sp_ = dict(specs[target], id="rg%d" % len(rsp), keep_out=True)
+                sp_["files"] = list(sp_["files"]) + [{"path": sp_["output"], "content": obs[old]["out_content"]}]
+                sp_["what"] = ["regenerate-over-own-output:%s-over-%s" % ("stub" if target % 2 else "normal", "stub" if old % 2 else "normal")]
+                rsp.append(sp_)
+                rref.append(target)
+        for sp_, ro, j in zip(rsp, build.gx_run(tooldir, rsp), rref):
+            if ro.get("exit") != 0 or ro["out_after"].get("hash") != obs[j]["out_after"].get("hash"):
+                out.violation(sp_["what"][0], "%s: exit %s, %s" % (sp_["what"][0], ro.get("exit"), (ro.get("errors") or ["other bytes than a build into a fresh path"])[:1]), common.slim(sp_, ro))
+        dist["regenerated_over_own_output"] = len(rsp)
     # spellings of the flag: --stub=false is the normal mode, --stub=true / =1 the stub mode (same bytes as the canonical spelling)
     if not replay:
         sps, ref = [], []
